@@ -33,7 +33,7 @@ from rv.sim import Bench
 from rv.ref import c35_usb3link as L
 
 PROPERTY = "C40"
-CASES = {"quick": 32, "thorough": 480}
+CASES = {"quick": 32, "thorough": 320}
 # elaboration of the CRC-32 users dominates the cost; generous watchdog for a loaded machine
 TIMEOUT = {"quick": 3600, "thorough": 8 * 3600}
 RULE = ("case = 16 sub-sessions (DUT reset between) x 8 packets: data packets of all lengths mod 4 incl. zero length, ~45% damaged "
@@ -186,6 +186,8 @@ class Session:
             elif r < 0.45:
                 pkt["directed"] = set(rng.sample(GAP_ROLES, 2))
         n = self.length()
+        if kind in ("crc32_flip", "crc_swap", "abort") and rng.random() < 0.12:
+            n = 0
         if kind in ("short",) and n < 1:
             n = rng.randint(1, 24)
         if kind in ("ctrl_in_payload", "payload_flip") and n < 1:
